@@ -5,6 +5,7 @@ open Vx
 open BinNums
 open Base
 open C14Model
+open C14HevcModel
 
 let show_res (f : 'a -> string) (r : 'a res) : string =
   match r with
@@ -40,15 +41,17 @@ let model (fn : string) (args : int list) (d : coq_N list) : string =
   | "avc_gpsb" -> show_res show_ps (avc_get_parameter_sets_from_byte_stream d)
   | "avc_enot" -> show_res show_list (avc_extract_nalus_of_type (a 0) (L.nth args 1 = 1) d)
   | "avc_gfv" -> show_res hex_of_bytes (avc_get_first_video_nalu d)
-  | "hevc_fnt" -> show_res show_types (hevc_find_nalu_types d)
-  | "hevc_fntv" -> show_res show_types (hevc_find_nalu_types_up_to_video d)
-  | "hevc_cnt" -> show_res show_bool (hevc_contains_nalu_type d (a 0))
-  | "hevc_rap" -> show_res show_bool (hevc_is_rap_sample d)
-  | "hevc_idr" -> show_res show_bool (hevc_is_idr_sample d)
-  | "hevc_hps" -> show_res show_bool (hevc_has_parameter_sets d)
-  | "hevc_gps" -> show_res show_ps (hevc_get_parameter_sets d)
-  | "hevc_gpsb" -> show_res show_ps (hevc_get_parameter_sets_from_byte_stream d)
-  | "hevc_enot" -> show_res show_list (hevc_extract_nalus_of_type (a 0) (L.nth args 1 = 1) d)
+  (* the hevc functions are answered by the transcription of the hevc Go text (C14HevcModel.v); the older
+     instantiations of the shared loops (the hevc_ definitions of C14Model) are proved equal to them (C14HevcProofs.v) *)
+  | "hevc_fnt" -> show_res show_types (hevc_FindNaluTypes d)
+  | "hevc_fntv" -> show_res show_types (hevc_FindNaluTypesUpToFirstVideoNalu d)
+  | "hevc_cnt" -> show_res show_bool (hevc_ContainsNaluType d (a 0))
+  | "hevc_rap" -> show_res show_bool (hevc_IsRAPSample d)
+  | "hevc_idr" -> show_res show_bool (hevc_IsIDRSample d)
+  | "hevc_hps" -> show_res show_bool (hevc_HasParameterSets d)
+  | "hevc_gps" -> show_res show_ps (hevc_GetParameterSets d)
+  | "hevc_gpsb" -> show_res show_ps (hevc_GetParameterSetsFromByteStream d)
+  | "hevc_enot" -> show_res show_list (hevc_ExtractNalusOfTypeFromByteStream (a 0) d (L.nth args 1 = 1))
   | _ -> "unknown-fn"
 
 let () =
